@@ -883,6 +883,64 @@ func c02Worker(sh *explore.Shard) {
 			}
 		}
 	}
+	// (f) a commit that lists the same parent more than once (fast-import and
+	// hash-object write such commits, fsck accepts them): the number of parents is
+	// the number of parent headers
+	{
+		for shape := 0; shape < 4; shape++ {
+			idx++
+			if !sh.Mine(idx) || sh.Expired() {
+				continue
+			}
+			r := mrepo.New()
+			lv := gen.AddLeaves(r)
+			tree := r.AddTree([]mrepo.Entry{{Mode: 0o100644, Name: "a", Child: lv.BlobA}})
+			c0 := r.AddCommit(mrepo.CommitSpec{Tree: tree, Time: gen.T0, Message: "c0\n"})
+			c1 := r.AddCommit(mrepo.CommitSpec{Tree: tree, Parents: []mrepo.ID{c0}, Time: gen.T0 + 100, Message: "c1\n"})
+			ps := [][]mrepo.ID{{c0, c0}, {c1, c0, c1}, {c0, c1, c0, c1, c0}, {c1, c1, c1}}[shape]
+			dup := r.AddCommit(mrepo.CommitSpec{Tree: tree, Parents: ps, Time: gen.T0 + 200, Message: "same parent listed repeatedly\n"})
+			// an ordinary merge with fewer parent headers than dup has
+			m := r.AddCommit(mrepo.CommitSpec{Tree: tree, Parents: []mrepo.ID{dup, c1}, Time: gen.T0 + 300, Message: "merge\n"})
+			r.SetRef("refs/heads/main", m)
+			sc := &gen.Scenario{Repo: r, Desc: fmt.Sprintf("commit with %d parent headers naming %d distinct parents", len(ps), 1+shape%3/1)}
+			l := defaultListing(sc)
+			n.beginScenario()
+			n.maybeConform(sc, 0, 1)
+			gen.Orders(r, l, n.space(gen.OrderSpace{Commits: true}, sc), func(order []mrepo.ID) bool {
+				n.one(sc, order, sizes.NameStyleNone, true, nil)
+				return true
+			})
+			sh.C.Nontrivial++
+		}
+	}
+	// (g) very wide trees: entry counts around 2^8 and 2^16 next to a smaller
+	// tree, in both delivery orders (all entries share one blob)
+	{
+		for _, wide := range []int{255, 256, 257, 65535, 65536, 65537, 65636} {
+			idx++
+			if !sh.Mine(idx) || sh.Expired() {
+				continue
+			}
+			r := mrepo.New()
+			b := r.AddBlob([]byte("x"))
+			mk := func(k int, pfx string) mrepo.ID {
+				es := make([]mrepo.Entry, 0, k)
+				for i := 0; i < k; i++ {
+					es = append(es, mrepo.Entry{Mode: 0o100644, Name: fmt.Sprintf("%s%06d", pfx, i), Child: b})
+				}
+				return r.AddTree(es)
+			}
+			top := r.AddTree([]mrepo.Entry{{Mode: 0o40000, Name: "big", Child: mk(wide, "f")}, {Mode: 0o40000, Name: "small", Child: mk(200, "g")}})
+			c := r.AddCommit(mrepo.CommitSpec{Tree: top, Time: gen.T0, Message: "wide\n"})
+			r.SetRef("refs/heads/main", c)
+			sc := &gen.Scenario{Repo: r, Desc: fmt.Sprintf("tree with %d entries next to one with 200", wide)}
+			l := defaultListing(sc)
+			n.beginScenario()
+			n.one(sc, l.IDs, sizes.NameStyleNone, true, nil)
+			n.one(sc, reverseNonCommits(r, l), sizes.NameStyleNone, true, nil)
+			sh.C.Nontrivial++
+		}
+	}
 	// (c) absent kinds: blob-only and tree-only root sets must report 0 for the other kinds
 	{
 		idx++
@@ -1127,7 +1185,7 @@ func init() {
 	Registry["C01"] = &Check{Level: "model_checking", Worker: c01Worker, QuickBudget: 150 * time.Second, ThoroughBudget: 8 * time.Minute,
 		Rule: "bounded-exhaustive product of tree DAGs (2 trees) x 4 commit shapes x 5 tag configurations with unreachable noise and detached HEAD; for each every subset of references as selection x ROOT in {none, commit, tree, blob, tag+commit}; scanned in-process by the real CollectReferences+ScanRepositoryUsingGraph under git's order and one deviation; census keys compared with the independent oracle; a repository without any reference and with a detached HEAD measured by the real binary with no selection must report zero. non-trivial = a (repository, selection) pair with at least one root", Assumptions: asm}
 	Registry["C02"] = &Check{Level: "model_checking", Worker: c02Worker, QuickBudget: 150 * time.Second, ThoroughBudget: 8 * time.Minute,
-		Rule: "all commit DAGs (n<=4) x all message-length vectors (2 lengths quick, 4 with ties thorough) x all linear extensions; blob-size vectors over {0,3,9} x 3 layouts x all tree/blob listing permutations (cap 720); blob-only/tree-only root sets; maxima compared with the oracle. non-trivial = scenario with more than one listing order", Assumptions: asm}
+		Rule: "all commit DAGs (n<=4 quick, n<=5 thorough) x all message-length vectors (2 lengths quick, 3 thorough, ties included) x all linear extensions; blob-size vectors over {0,3,9} x 3 layouts x all tree/blob listing permutations (cap 720); all tree DAGs of 2 trees over entry kinds file/exec/symlink/gitlink/legacy-mode file x all tree orders; blobs of 2^32-1..3*2^32 bytes at every position; commits listing the same parent repeatedly; trees of 255..65636 entries next to a smaller one in both delivery orders; blob-only/tree-only root sets; maxima compared with the oracle. non-trivial = scenario with more than one listing order", Assumptions: asm}
 	Registry["C03"] = &Check{Level: "model_checking", Worker: c03Worker, QuickBudget: 150 * time.Second, ThoroughBudget: 10 * time.Minute,
 		Rule: "all commit DAGs on n commits (n<=4 quick, n<=5 thorough) x all non-empty root subsets x all linear extensions of the listing; all tag forests on m tags (m<=4 / 5) x all non-empty root subsets x all m! listing orders; max_history_depth and max_tag_depth compared with the longest-chain oracle; real git deciding the order: every DAG on n<=3 (quick) / n<=4 (thorough) commits x every assignment of distinct timestamps (children older than parents included) through the real binary with real git. non-trivial = scenario with more than one admissible order", Assumptions: asm}
 	Registry["C04"] = &Check{Level: "model_checking", Worker: c04Worker, QuickBudget: 150 * time.Second, ThoroughBudget: 20 * time.Minute,
